@@ -289,6 +289,26 @@ pub fn before_sleep(uid: Uid) -> bool {
     })
 }
 
+/// does this call of before_sleep fail by injection? (a synthetic event that was about to be announced stays armed)
+pub fn before_sleep_fails(uid: Uid, want: bool) -> bool {
+    w(|w| {
+        let s = &mut w.srcs[uid];
+        let n = s.bs_calls;
+        s.bs_calls += 1;
+        if s.spec.bs_fail.map(|k| k as u32 == n).unwrap_or(false) {
+            if want {
+                s.synth_armed = true;
+            }
+            w.dispatch_failed = true;
+            w.count("before_sleep_failed");
+            w.tr(|| format!("  before_sleep #{} fails (injected)", uid));
+            true
+        } else {
+            false
+        }
+    })
+}
+
 pub fn synth_returned(uid: Uid, key: usize) {
     w(|w| {
         w.count("synthetic_returned");
@@ -300,9 +320,15 @@ pub fn synth_returned(uid: Uid, key: usize) {
 pub fn synth_delivered(uid: Uid) {
     w(|w| {
         let s = &mut w.srcs[uid];
-        s.life.synth_delivered += 1;
         // the wrapper recognised its synthetic token: not a polled event
         s.life.pes.pop();
+        if s.synth_owed {
+            // announced in an earlier dispatch that failed before the wait: delivered now
+            s.synth_owed = false;
+            w.count("synthetic_delivered_after_failed_dispatch");
+            return;
+        }
+        s.life.synth_delivered += 1;
         let ok = s.life.synth_returned;
         let layout = s.layout_changed_at != 0 && s.layout_changed_at == w.dispatch_no;
         if !ok {
